@@ -243,7 +243,100 @@ def oracle_components(h):
         if msgs > len(writes) * max(n, 1):
             fails.append(("C09", "%d ComponentUpdated messages for %d writes with %d clients (bound: writes x clients)" % (msgs, len(writes), n),
                           {"phase": ph}))
+    fails += oracle_initial_values(h)
     return fails
+
+
+def oracle_initial_values(h):
+    """C02, 'values the entity already carried when it was marked': at every quiescent drain every connected peer holds,
+    for every component a marked entity was spawned with, what the spawning peer holds"""
+    fails = []
+    binds = {b["h"]: b["uuid"] for b in h.events if b["ev"] == "bind"}
+    carried = []    # (event index, peer, uuid, ty)
+    for i, e in enumerate(h.events):
+        if e["ev"] == "op" and e["op"] == "spawn" and e.get("mark") and e.get("comps"):
+            u = binds.get(e["h"])
+            if u is None:
+                continue
+            for cv in e["comps"]:
+                if cv["ty"] in h.registered:
+                    carried.append((i, e["peer"], u, cv["ty"]))
+        if e["ev"] == "drain" and e["quiescent"]:
+            for (j, origin, u, ty) in carried:
+                so = last_state(h, i, origin)
+                if so is None or ent_of(so, u) is None:
+                    continue
+                if origin != 0 and so.get("client_state") != "Connected":
+                    continue
+                want = comp_value(so, u, ty)
+                for p in h.peers():
+                    st = last_state(h, i, p)
+                    if p == origin or st is None or (p != 0 and st.get("client_state") != "Connected"):
+                        continue
+                    if ent_of(st, u) is None:
+                        continue      # entity-level convergence is C01
+                    got = comp_value(st, u, ty)
+                    if got != want:
+                        fails.append(("C02", "peer %d does not hold the %s value the entity carried when peer %d marked it (%s)"
+                                      % (p, ty, origin, "absent" if got is None else "different"), {"uuid": u[:8], "ty": ty, "origin": origin}))
+                        break
+    return fails
+
+
+def mark_lines(h, legacy):
+    """one Mark-slice instance per (marked spawn after the connection, carried component): how often the marking peer
+    announced the value before anybody wrote that key again, against the model under this run's system order"""
+    out = []
+    binds = {b["h"]: b["uuid"] for b in h.events if b["ev"] == "bind"}
+    sched = {e["peer"]: e["order"] for e in h.events if e["ev"] == "sched"}
+    connected_at = next((i for i, e in enumerate(h.events) if e["ev"] == "connected"), None)
+    if connected_at is None or any(e["ev"] in ("late_join", "left") for e in h.events):
+        return out
+    for i, e in enumerate(h.events):
+        if i < connected_at or not (e["ev"] == "op" and e["op"] == "spawn" and e.get("mark") and e.get("comps")):
+            continue
+        u = binds.get(e["h"])
+        p = e["peer"]
+        order = sched.get(p)
+        if u is None or order is None or "apply_deferred" not in order:
+            continue
+        for cv in e["comps"]:
+            ty = cv["ty"]
+            if ty not in h.registered or ty not in h.types:
+                continue
+            path = h.types[ty]
+            sysname = "sync_detect<%s>" % path.split("::")[-1]
+            if sysname not in order:
+                continue
+            before = order.index(sysname) < order.index("apply_deferred")
+            # until the key is written again (by anybody) or the history ends
+            end = len(h.events)
+            for j in range(i + 1, len(h.events)):
+                x = h.events[j]
+                if x["ev"] == "op" and x["op"] == "write" and x.get("uuid") == u and x["val"]["ty"] == ty:
+                    end = j
+                    break
+                if x["ev"] == "op" and x["op"] in ("despawn", "exclude") and x.get("h") == e["h"]:
+                    end = j
+                    break
+            frames = sum(1 for x in h.events[i:end] if x["ev"] == "frame" and x["peer"] == p)
+            if frames < 2:
+                continue
+            # announcements as seen by one receiver: the host for a client's mark, the first client for the host's
+            rcv = 0 if p != 0 else 1
+            if rcv > h.nclients:
+                continue
+            # everything the marking peer sent until `end` has to be counted: look a few frames further at the receiver
+            seen = 0
+            for x in h.events[i:]:
+                if x["ev"] == "frame" and x["peer"] == rcv:
+                    for m in x["recv"]:
+                        if m["msg"]["k"] == "comp" and m["msg"]["id"] == u and m["msg"]["name"] == path and (p == 0 or m.get("from") == p):
+                            seen += 1
+            if end != len(h.events):
+                continue      # a later write would add its own announcement to the count: only untouched keys are compared
+            out.append("mark %s/%s.%s %d %d %d %d" % (h.id, u[:8], ty, 1 if legacy else 0, 1 if before else 0, frames, seen))
+    return out
 
 
 # ------------------------------------------------------------------ C08: fault cases
@@ -558,6 +651,28 @@ def oracle_entities(h):
                     if u2e.get(u) != loc:
                         fails.append(("C01", "peer %d: uuid_to_entity does not map a live synchronized entity to itself" % p, {"uuid": u}))
                         break
+            # exactly the entities the applications created and did not despawn (histories in which nobody leaves)
+            if not any(x["ev"] == "op" and x["op"] in ("disconnect", "stop_host") for x in h.events):
+                binds = {b["h"]: b["uuid"] for b in h.events[:i] if b["ev"] == "bind"}
+                gone = set(x["h"] for x in h.events[:i] if x["ev"] == "op" and x["op"] in ("despawn", "despawn_cmd") and x.get("done", True))
+                expected = set(binds[x["h"]] for x in h.events[:i]
+                               if x["ev"] == "op" and x["op"] == "spawn" and x.get("mark") and x["h"] in binds and x["h"] not in gone)
+                for p, got in sets.items():
+                    lost = expected - got
+                    if lost:
+                        fails.append(("C01", "peer %d no longer holds a synchronized entity that no application despawned" % p,
+                                      {"uuids": sorted(u[:8] for u in lost)[:6]}))
+                        break
+                despawned = set(binds[hh] for hh in gone if hh in binds)
+                spurious = set()
+                for x in h.events[:i]:
+                    if x["ev"] == "frame":
+                        for m in x["recv"]:
+                            if m["msg"]["k"] == "delete" and m["msg"]["id"] not in despawned and m["msg"]["id"] in binds.values():
+                                spurious.add(m["msg"]["id"])
+                if spurious:
+                    fails.append(("C09", "an EntityDelete was sent for an entity no application despawned (a peer turned an applied change into a change of its own)",
+                                  {"uuids": sorted(u[:8] for u in spurious)[:6]}))
             vals = list(sets.values())
             if vals and any(v != vals[0] for v in vals):
                 allu = set().union(*vals)
@@ -951,3 +1066,67 @@ def asset_lines(h, count_tokens=True, skip_served=False):
         else:
             out.append("asset %s %d %d %d %s" % (inst, 1 if count_tokens else 0, 1 if skip_served else 0, h.nclients, ";".join(d["script"])))
     return out
+
+
+def oracle_join(h):
+    """C03: at the final quiescent drain every connected client — newcomers and returners in particular — holds what
+    the host holds: synchronized entities by uuid (none twice), registered component values, parent links, uuid
+    assets of the classes enabled on both"""
+    fails = []
+    cfg = peer_cfgs(h)
+    comers = set(e["peer"] for e in h.events if e["ev"] == "join_begin")
+    fin = [i for i, e in enumerate(h.events) if e["ev"] == "drain" and e.get("final")]
+    if not fin:
+        return fails
+    i = fin[-1]
+    if not h.events[i]["quiescent"]:
+        fails.append(("C03", "the session never drains after the join", {}))
+        return fails
+    for e in h.events:
+        if e["ev"] == "late_join" and not e["ok"]:
+            fails.append(("C03", "peer %d never completes its join (Connected + InitialSyncFinished)" % e["peer"], {}))
+    host = last_state(h, i, 0)
+    npeers = 1 + max([0] + [p for p in cfg])
+    for p in range(1, npeers):
+        st = last_state(h, i, p)
+        if st is None or st.get("client_state") != "Connected":
+            continue
+        who = "returning client" if (p in comers and any(e["ev"] == "left" and e["peer"] == p for e in h.events)) else ("joining client" if p in comers else "client")
+        uu = [x["uuid"] for x in st["ents"]]
+        if len(uu) != len(set(uu)):
+            fails.append(("C03", "%s %d holds two live entities with the same uuid" % (who, p), {}))
+        hs, ps = {x["uuid"]: x for x in host["ents"]}, {x["uuid"]: x for x in st["ents"]}
+        missing = [u[:8] for u in hs if u not in ps]
+        extra = [u[:8] for u in ps if u not in hs]
+        if missing:
+            fails.append(("C03", "%s %d lacks synchronized entities the host holds" % (who, p), {"uuids": missing[:6]}))
+        if extra:
+            fails.append(("C03", "%s %d holds synchronized entities the host does not (any more)" % (who, p), {"uuids": extra[:6]}))
+        regs = set(cfg.get(0, {}).get("registered", [])) & set(cfg.get(p, {}).get("registered", []))
+        for u in hs:
+            if u not in ps:
+                continue
+            a, b = hs[u], ps[u]
+            for ty in regs:
+                if ty in ("HMat", "HMesh") and False:
+                    continue
+                if a["comps"].get(ty) != b["comps"].get(ty):
+                    fails.append(("C03", "%s %d holds a different %s value than the host" % (who, p, "component"), {"uuid": u[:8], "ty": ty,
+                                  "host": (a["comps"].get(ty) or "absent")[-12:], "peer": (b["comps"].get(ty) or "absent")[-12:]}))
+                    break
+            # a Parent pointing at something that is not a synchronized entity (e.g. left dangling by a despawn) is not a replicated link
+            pa_, pb_ = (None if a["parent"] == "unsynced" else a["parent"]), (None if b["parent"] == "unsynced" else b["parent"])
+            if pa_ != pb_:
+                fails.append(("C03", "%s %d has a different parent link than the host" % (who, p), {"uuid": u[:8], "host": a["parent"], "peer": b["parent"]}))
+        for kind, sw in (("material", "materials"), ("image", "materials"), ("mesh", "meshes"), ("audio", "audios")):
+            if not (cfg.get(0, {}).get(sw) and cfg.get(p, {}).get(sw)):
+                continue
+            ha, pa = host["assets"].get(kind) or {}, st["assets"].get(kind) or {}
+            for u, hsh in ha.items():
+                if u not in pa:
+                    fails.append(("C03", "%s %d lacks a uuid %s the host holds" % (who, p, kind), {"uuid": u[:8]}))
+                    break
+                if pa[u] != hsh:
+                    fails.append(("C03", "%s %d holds a uuid %s whose content differs from the host's" % (who, p, kind), {"uuid": u[:8]}))
+                    break
+    return fails
